@@ -41,6 +41,7 @@ func extraSpecs() []*PropertySpec {
 		{ID: "C18", Rules: []string{"LIFECYCLE", "FOLLOWER-LOOKUP"}, Decided: "exhaustive exploration of Start/Restart/Stop/Bootstrap sequences over the (running, log open, configured, lifecycle flags) automaton extracted from the code: a running node always has its log open and no lifecycle method uses a closed log"},
 		{ID: "C01", Rules: []string{"APPLY-ORDER"},
 			Decided: "the apply loop fetches log[lastApplied+1] only while lastApplied < commitIndex, hands exactly that entry's index/term/data to the state machine and advances lastApplied by one"},
+		{ID: "C07", Rules: []string{"COMPACT-KEEP"}, Decided: "the bundled log's LastIndex/LastTerm, which the vote restriction compares against, survive compaction (the boundary entry, with its term, stays as the placeholder)"},
 		{ID: "C07", Rules: []string{"LEADER-APPEND"},
 			Decided: "a leader creates entries only at NextIndex() with its current term and appends a no-op of its term before its first send"},
 		{
